@@ -143,14 +143,14 @@ func party(conn io.ReadWriteCloser, closeWrite func(), priv crypto.PrivKeyEd2551
 }
 
 type convSpec struct {
-	ID       string   `json:"id"`
-	WritesAB []int    `json:"writes_ab"`
-	WritesBA []int    `json:"writes_ba"`
-	ModeA    string   `json:"read_mode_a"` // A's reader (B->A stream)
-	ModeB    string   `json:"read_mode_b"`
-	PlanAB   *tamper  `json:"tamper_ab,omitempty"`
-	PlanBA   *tamper  `json:"tamper_ba,omitempty"`
-	Seed     int64    `json:"seed"`
+	ID       string  `json:"id"`
+	WritesAB []int   `json:"writes_ab"`
+	WritesBA []int   `json:"writes_ba"`
+	ModeA    string  `json:"read_mode_a"` // A's reader (B->A stream)
+	ModeB    string  `json:"read_mode_b"`
+	PlanAB   *tamper `json:"tamper_ab,omitempty"`
+	PlanBA   *tamper `json:"tamper_ba,omitempty"`
+	Seed     int64   `json:"seed"`
 	streamAB []byte
 	streamBA []byte
 }
@@ -172,11 +172,11 @@ func (c *convSpec) fill() {
 }
 
 type convResult struct {
-	A, B           sideResult
-	appliedAB      bool
-	appliedBA      bool
-	framesAB       int
-	framesBA       int
+	A, B      sideResult
+	appliedAB bool
+	appliedBA bool
+	framesAB  int
+	framesBA  int
 }
 
 func runConv(c *convSpec) *convResult {
